@@ -241,7 +241,7 @@ From Coq Require Import List Arith ZArith Floats Reals.
 From OV Require Import Base.Panic Base.Arith Model.Vector Model.Matrix Model.Sparse Model.Iter Inst.FloatInst Inst.QcInst
   Proofs.Iter Proofs.IterField Proofs.IterInst Proofs.IterR Proofs.IterRows.
 From OV Require Import Proofs.SparseBase Proofs.SparseMul Proofs.IterR Proofs.IterSparse Proofs.IterSparseR Proofs.IterSparseBreakdown Proofs.IterSparseBreakdownField Proofs.IterSparseBreakdownQMR Proofs.IterSparseBreakdownTri
-  Proofs.IterCGVec Proofs.IterCGDim Proofs.IterCG Proofs.IterCGR Proofs.IterCGBi Proofs.IterCGSparse Proofs.IterCGDominant Proofs.IterCGOneStep Proofs.IterCGOneStepR
+  Proofs.IterCGVec Proofs.IterCGDim Proofs.IterCG Proofs.IterCGR Proofs.IterCGBi Proofs.IterCGBiOrth Proofs.IterCGSparse Proofs.IterCGDominant Proofs.IterCGOneStep Proofs.IterCGOneStepR
   Proofs.IterCGExamples.
 Import ListNotations.
 
@@ -730,6 +730,70 @@ Check one_by_one_converges_R : forall (mulA mulAT : list R -> res (list R)) (a :
   length b = 1 -> length x0 = 1 -> (0 <= tol)%R -> 1 <= max ->
   exists k x g, @run SAR mulA mulAT 1 1 sv b x0 max tol = Ok (IOk k, x, g) /\ k <= 1.
 Print Assumptions one_by_one_converges_R.
+
+(* BiCG, ARBITRARY (nonsymmetric) matrix given by a linear product and its adjoint, any field: along every run of the model's loop (started,
+   as solve_bicg starts it, with the shadow residual equal to the residual) the residuals and the shadow residuals are BI-ORTHOGONAL:
+   at the state reached after k = i-1 steps there are histories R = [r_{k-1};..;r_0], RR = [rr_{k-1};..;rr_0] with <r_a, rr_b> = 0 for a <> b
+   (bo (u,u') (v,v') := <u,v'> = 0 /\ <v,u'> = 0; biI = the full invariant of Proofs/IterCGBiOrth.v, both sides obtained from ONE abstract
+   half_step lemma) *)
+Theorem bicg_biorthogonality : forall (A : SArith), FieldLaws (SA A) ->
+  forall n (mulA mulAT : list (T (SA A)) -> res (list (T (SA A)))), LinOp n mulA -> LinOp n mulAT -> AdjOp n mulA mulAT ->
+  forall itol tol bnrm (s0 : @bicg_st A) i s,
+  itol = 1 \/ itol = 2 -> bi_lens n s0 -> bi_rr s0 = bi_r s0 -> 2 <= i ->
+  reaches (bicg_body mulA mulAT n itol tol bnrm) 1 s0 i s ->
+  exists R RR P PP, length R = i - 1 /\ length RR = i - 1 /\
+    ForallOrdPairs bo ((bi_r s, bi_rr s) :: combine R RR) /\
+    biI n mulA mulAT (bi_x s) (bi_r s) (bi_rr s) (bi_p s) (bi_pp s) (bi_rho2 s) R RR P PP.
+Proof. intros A FL n mulA mulAT LO LOT ADJ itol tol bnrm s0 i s. exact (bicg_biorthogonality FL n mulA mulAT LO LOT ADJ itol tol bnrm s0 i s). Qed.
+Check bicg_biorthogonality : forall (A : SArith), FieldLaws (SA A) ->
+  forall n (mulA mulAT : list (T (SA A)) -> res (list (T (SA A)))), LinOp n mulA -> LinOp n mulAT -> AdjOp n mulA mulAT ->
+  forall itol tol bnrm (s0 : @bicg_st A) i s,
+  itol = 1 \/ itol = 2 -> bi_lens n s0 -> bi_rr s0 = bi_r s0 -> 2 <= i ->
+  reaches (bicg_body mulA mulAT n itol tol bnrm) 1 s0 i s ->
+  exists R RR P PP, length R = i - 1 /\ length RR = i - 1 /\
+    ForallOrdPairs bo ((bi_r s, bi_rr s) :: combine R RR) /\
+    biI n mulA mulAT (bi_x s) (bi_r s) (bi_rr s) (bi_p s) (bi_pp s) (bi_rho2 s) R RR P PP.
+Print Assumptions bicg_biorthogonality.
+Example bicg_biorthogonality_nonvacuous : LinOp 2 (@sp_mul AQ kq_s) /\ LinOp 2 (@sp_tmul AQ kq_s) /\ AdjOp 2 (@sp_mul AQ kq_s) (@sp_tmul AQ kq_s).
+Proof. split; [exact (sp_mul_LinOp AQ_RingLaws kq_s 2 kq_s_wf eq_refl eq_refl)|].
+  split; [exact (sp_tmul_LinOp AQ_RingLaws kq_s 2 kq_s_wf eq_refl eq_refl) | exact (sp_mul_AdjOp AQ_RingLaws kq_s 2 kq_s_wf eq_refl eq_refl)]. Qed.
+
+(* BREAKDOWN OR TERMINATION: a run that reaches iteration i >= 2 without a panic has divided by <r_{i-2}, rr_{i-2}>; bi-orthogonal pairs with
+   nonzero pairings are at most n (biorth_bound); hence in exact arithmetic, for EVERY square matrix, b, x0, tol: solve_bicg either divides by
+   zero (a Panic of the model -- exactly the breakdown for which the code has no test and f64 produces NaN) or answers Ok within n+1
+   iterations; it never exhausts a budget >= n+2.  Together with bicg_left_eigenvector_breakdown: the failures of BiCG on well-posed systems ARE its breakdowns *)
+Theorem bicg_breakdown_or_terminates : forall (A : SArith), FieldLaws (SA A) ->
+  forall n (mulA mulAT : list (T (SA A)) -> res (list (T (SA A)))), LinOp n mulA -> LinOp n mulAT -> AdjOp n mulA mulAT ->
+  forall itol (b x0 : list (T (SA A))) max tol res x g,
+  n + 2 <= max ->
+  solve_bicg mulA mulAT n n itol b x0 max tol = Ok (res, x, g) ->
+  exists k, res = IOk k /\ k <= n + 1.
+Proof. intros A FL n mulA mulAT LO LOT ADJ itol b x0 max tol res x g. exact (bicg_breakdown_or_terminates FL n mulA mulAT LO LOT ADJ itol b x0 max tol res x g). Qed.
+Check bicg_breakdown_or_terminates : forall (A : SArith), FieldLaws (SA A) ->
+  forall n (mulA mulAT : list (T (SA A)) -> res (list (T (SA A)))), LinOp n mulA -> LinOp n mulAT -> AdjOp n mulA mulAT ->
+  forall itol (b x0 : list (T (SA A))) max tol res x g,
+  n + 2 <= max ->
+  solve_bicg mulA mulAT n n itol b x0 max tol = Ok (res, x, g) ->
+  exists k, res = IOk k /\ k <= n + 1.
+Print Assumptions bicg_breakdown_or_terminates.
+Example bicg_breakdown_or_terminates_nonvacuous : LinOp 2 (@sp_mul AQ exq_s) /\ LinOp 2 (@sp_tmul AQ exq_s) /\ AdjOp 2 (@sp_mul AQ exq_s) (@sp_tmul AQ exq_s) /\
+  exists x g, @solve_bicg SAQ (sp_mul exq_s) (sp_tmul exq_s) 2 2 1 [q 1 1; q 2 1] [q 2 1; q 1 1] 10 (q 1 1000) = Ok (IOk 2, x, g).
+Proof. split; [exact exq_lin|]. split; [exact (sp_tmul_LinOp AQ_RingLaws exq_s 2 exq_s_wf eq_refl eq_refl)|].
+  split; [exact (sp_mul_AdjOp AQ_RingLaws exq_s 2 exq_s_wf eq_refl eq_refl)|]. apply (@ok_k_witness SAQ). vm_compute. reflexivity. Qed.
+
+(* for the implementation's matrix type: every well-formed storage (no symmetry, no dominance, no definiteness asked) *)
+Theorem bicg_breakdown_or_terminates_sparse : forall (A : SArith) (FL : FieldLaws (SA A)) (s : sparse (SA A)) itol (b x0 : list (T (SA A))) max tol res x g,
+  wfS s -> sp_rows s + 2 <= max ->
+  run_sparse (BiCG itol) s b x0 max tol = Ok (res, x, g) ->
+  exists k, res = IOk k /\ k <= sp_rows s + 1.
+Proof. intros A FL s itol b x0 max tol res x g. exact (bicg_breakdown_or_terminates_sparse FL s itol b x0 max tol res x g). Qed.
+Check bicg_breakdown_or_terminates_sparse : forall (A : SArith) (FL : FieldLaws (SA A)) (s : sparse (SA A)) itol (b x0 : list (T (SA A))) max tol res x g,
+  wfS s -> sp_rows s + 2 <= max ->
+  run_sparse (BiCG itol) s b x0 max tol = Ok (res, x, g) ->
+  exists k, res = IOk k /\ k <= sp_rows s + 1.
+Print Assumptions bicg_breakdown_or_terminates_sparse.
+Example bicg_breakdown_or_terminates_sparse_nonvacuous : wfS exq_s /\ exists x g, @run_sparse SAQ (BiCG 2) exq_s [q 1 1; q 2 1] [q 2 1; q 1 1] 10 (q 1 1000) = Ok (IOk 2, x, g).
+Proof. split; [exact exq_s_wf|]. apply exq_run_sparse_ok. intros itol H. injection H as <-. now right. Qed.
 
 (* (3) ANY arithmetic (floats included), any products, any sizes.  The ghost exit code g_exit names the `return` taken (Model/Iter.v).
    BiCGSTAB: an Err is budget exhaustion (2), the `rho_1 == 0` exit (10) or the `omega == 0` exit (11), nothing else *)
